@@ -129,6 +129,17 @@ fn parse_list(src: &str, brace: Option<usize>) -> (usize, Option<Vec<(String, St
     (nerr, list)
 }
 
+/// Recorded extent of the known finding "the kind of `let` depends on the parsing routine": at file
+/// level the unchanged tree hands the rest of the file to the statement routine after the first of
+/// these statements (observed on the pairs `<a> let x = q;`, see DESIGN.md §13); the cell of a `let`
+/// whose kind differs says whether one of them precedes it, so that any *other* statement that
+/// starts to switch the routine is a different cell and is reported.
+const ROUTINE_SWITCHING: &[&str] = &[
+    "empty", "qreg", "creg", "gate-call", "gate-call-params", "gate-call-2q", "gate-call-hw", "gate-call-mod", "gphase", "measure-stmt",
+    "measure-assign", "return", "return-value", "assign", "assign-ident", "assign-paren", "assign-indexed", "assign-compound", "expr-stmt",
+    "neg-expr-stmt", "paren-expr-stmt", "paren-call-stmt", "call-stmt", "index-stmt", "pragma", "pragma-hash", "annotation", "version", "block",
+];
+
 fn check_sequence(idxs: &[usize], ctx: usize, sep: &str, obs: &mut Obs) {
     let (cname, pre, post) = CONTEXTS[ctx];
     // individually parsed statements
@@ -188,10 +199,12 @@ fn check_sequence(idxs: &[usize], ctx: usize, sep: &str, obs: &mut Obs) {
                     (Some(_), Some(_)) => "text",
                     _ => "count",
                 };
-                obs.violate(
-                    format!("{}/{}/{cname}/{what}/next:{}", kind_of(k), pred_of(k), next_of(k)),
-                    format!("{src:?}: statement {i}: in context {:?}, alone {:?}", list.get(i), expected.get(i)),
-                );
+                let mut cell = format!("{}/{}/{cname}/{what}/next:{}", kind_of(k), pred_of(k), next_of(k));
+                if cname == "file" && what == "kind" && kind_of(k).starts_with("alias") {
+                    let after = (0..k).any(|j| ROUTINE_SWITCHING.contains(&kind_of(j)));
+                    cell.push_str(if after { "/after-routine-switch" } else { "/items-only-before" });
+                }
+                obs.violate(cell, format!("{src:?}: statement {i}: in context {:?}, alone {:?}", list.get(i), expected.get(i)));
             } else if nerr > 0 {
                 // which statement? re-parse growing prefixes
                 let mut culprit = idxs.len() - 1;
